@@ -628,7 +628,41 @@ def r7(F, R):
                     if tt["k"] == "switch":
                         ctrl |= cond_fields(b, tt["discr"])
             if not ctrl:
-                R.bad("C01-R7", key, site, "cannot find the condition selecting between the options and the no-check copy")
+                # the selection is made through a value computed elsewhere (`match bounds.next(depth) { Unchecked => &no_check, Checked => options, .. }`):
+                # walk the paths of one iteration to this call; the no-check copy is chosen exactly on the paths that passed `tree.depth < mindepth`
+                inner = [(h, body) for h, body in loops.items() if bb in body]
+                verdict = None
+                if inner:
+                    h, body = max(inner, key=lambda x: len(x[1]))
+                    hits, _ex = K.iter_paths(b, h, [bb], within=body)
+                    defblocks = {d[1]: d for d in defs}
+                    wrong = []
+                    for (_tb, cs, path) in (hits or []):
+                        last = [x for x in path if x in defblocks]
+                        if not last:
+                            wrong.append("no definition of the options on a path")
+                            continue
+                        d = defblocks[last[-1]]
+                        dv = b.rvalue_value(d[3]["rv"]) if d[0] == "stmt" else ("unknown",)
+                        root_ = dv
+                        while root_[0] in ("ref", "deref"):
+                            root_ = root_[1]
+                        is_caller_options = root_[0] == "arg"
+                        rels = {K.depth_relation(b, sw, val) for (sw, val) in cs}
+                        below = ("Lt", "mindepth") in rels
+                        above = ("Ge", "mindepth") in rels
+                        if is_caller_options and not above:
+                            wrong.append("the caller's options are used on a path that has not passed `tree.depth >= mindepth`")
+                        if not is_caller_options and not below:
+                            wrong.append("the no-check copy is used on a path that has not passed `tree.depth < mindepth`")
+                    if hits:
+                        verdict = sorted(set(wrong))
+                if verdict is None:
+                    R.bad("C01-R7", key, site, "cannot find the condition selecting between the options and the no-check copy")
+                elif verdict:
+                    R.bad("C01-R7", key, site, "; ".join(verdict))
+                else:
+                    R.ok("C01-R7", key, site, "on every path of an iteration the no-check copy is selected exactly where tree.depth < mindepth was established (%d paths)" % len(hits))
             elif "depth" in ctrl and "mindepth" in ctrl and not ({"maxdepth", "extra_doublings"} & ctrl):
                 R.ok("C01-R7", key, site, "selection depends on %s" % sorted(ctrl))
             else:
@@ -675,6 +709,165 @@ def r8(F, R):
     R.floor("C01-R8", 1)
 
 
+def _weight_atoms(v, self_base, other_base):
+    """Weights a value tree reads, outside of a logaddexp call: 'own' (the receiving tree's log_size), 'other' (the merged-in tree's), 'merged'
+    (a logaddexp result), 'unknown:<x>' for a log_size of something else."""
+    out = set()
+
+    def rec(x):
+        if not isinstance(x, tuple):
+            return
+        if x[0] == "call" and path_ends(x[1], "logaddexp"):
+            out.add("merged")
+            return
+        if x[0] == "field" and x[2] == "log_size":
+            b_ = vt_str(x[1])
+            out.add("own" if b_ == self_base else "other" if b_ == other_base else "unknown:" + b_)
+            return
+        for y in x[1:]:
+            if isinstance(y, tuple):
+                rec(y)
+            elif isinstance(y, list):
+                for z in y:
+                    rec(z)
+    rec(v)
+    return out
+
+
+def r12(F, R):
+    R.rule("C01-R12", "U-turn tests only between complete halves: in extend() (helpers inlined) no Hamiltonian::is_turning call lies inside the loop that "
+                      "builds the new half (the loop around the recursive extend call) - a test that spans the old half and a partially built new half "
+                      "depends on the side the tree was started from, so the set of tests is not the same for a trajectory and its mirror image")
+    ext = [b for b in F.inherent_methods("NutsTree", "extend")]
+    if not ext:
+        R.missing("C01-R12", "NutsTree::extend")
+    for b in ext:
+        site = "%s @%s" % (b.path, b.loc())
+        rec = [bb for bb, t in b.calls_to(lambda c: path_ends(c["path"], "NutsTree::extend"))]
+        loops = b.natural_loops()
+        build = [(h, body) for h, body in loops.items() if any(x in body for x in rec)]
+        if not rec or not build:
+            R.missing("C01-R12", "loop around the recursive extend call in %s" % b.path)
+            continue
+        body = set().union(*[bd for _h, bd in build])
+        inside = [(bb, t) for bb, t in b.calls_to(lambda c: path_ends(c["path"], "Hamiltonian::is_turning")) if bb in body]
+        if inside:
+            R.bad("C01-R12", b.path + ":partial-half", "%s @%s" % (b.path, loc(inside[0][1]["span"])),
+                  "a U-turn test is made while the new half is still being built (inside the sub-tree loop): the tested span is not a node of the balanced tree")
+        else:
+            n_ = len(b.calls_to(lambda c: path_ends(c["path"], "Hamiltonian::is_turning")))
+            R.ok("C01-R12", b.path + ":partial-half", site, "%d is_turning call(s), none inside the loop that builds the new half" % n_)
+    R.floor("C01-R12", 1)
+
+
+def _alternatives(b, v, blocks, depth=0):
+    """A multiply defined local (`p = if c {1.0} else {exp(..)}`) stands for each of its definitions inside `blocks`."""
+    if not (isinstance(v, tuple) and v[0] == "local") or depth > 3:
+        return [v]
+    out = []
+    for d in b.defs().get(v[1], []):
+        if d[1] not in blocks:
+            continue
+        if d[0] == "stmt" and d[3]["k"] == "assign" and not d[3]["pl"]["p"]:
+            out += _alternatives(b, b.rvalue_value(d[3]["rv"]), blocks, depth + 1)
+        elif d[0] == "call" and not d[3]["dest"]["p"]:
+            c = d[3]["callee"]
+            out.append(("call", c.get("path", "?"), [b.value(a) for a in d[3]["args"]], c))
+    return out or [v]
+
+
+def r11(F, R):
+    R.rule("C01-R11", "progressive sampling inside a sub-tree is uniform (path-sensitive on is_main): with `is_main == false` assumed, every condition on the "
+                      "way to `self.draw = other.draw` that reads the new half's weight compares it with the merged weight logaddexp(own, other) - never with "
+                      "the old half's weight alone (that is the biased rule, valid only for the tree that contains the initial point) - the acceptance is "
+                      "gated by random_bool(exp(other - merged)), and the draw cannot be adopted on a path that passes neither that gate nor such a comparison")
+    n = 0
+    for (b, A, st, v, how) in K.field_writers(F, "nuts::NutsTree", "draw"):
+        if how != "assign" or not (v[0] == "field" and v[2] == "draw"):
+            continue
+        n += 1
+        site = "%s @%s" % (b.path, loc(st["span"]))
+        pl = st["pl"]
+        self_pl = {"l": pl["l"], "p": pl["p"][:-1], "ty": ""}
+        self_base = vt_str(b.place_value(self_pl))
+        other_base = vt_str(v[1])
+        self_root = K.root_local(b, {"k": "copy", "pl": {"l": pl["l"], "p": [], "ty": ""}})
+
+        def mk_oracle(val):
+            def oracle(q):
+                if q["p"] and isinstance(q["p"][-1], dict) and q["p"][-1].get("n") == "is_main" and q["p"][-1].get("of") == "nuts::NutsTree":
+                    if vt_str(b.place_value({"l": q["l"], "p": q["p"][:-1], "ty": ""})) == self_base:
+                        return val
+                return None
+            return oracle
+        for case, val in (("sub-tree", False), ("main", True)):
+            key = "%s:%s" % (b.path, case)
+            FB = b.reach_feasible(0, oracle=mk_oracle(val))
+            if A not in FB:
+                if not val:
+                    R.bad("C01-R11", key, site, "with is_main == false the assignment of the new draw is unreachable: sub-trees never adopt a draw of their later half")
+                else:
+                    R.bad("C01-R11", key, site, "with is_main == true the assignment of the new draw is unreachable")
+                continue
+            pred = b.pred_map()
+            can = {A}
+            stk = [A]
+            while stk:
+                x = stk.pop()
+                for y in pred[x]:
+                    if y in FB and y not in can:
+                        can.add(y)
+                        stk.append(y)
+            gates = set()
+            bad = []
+            rand_ok = False
+            with b.restricted(FB):
+                for x in sorted(can):
+                    t = b.blocks[x]["term"]
+                    if t["k"] == "call" and strip_generics(t["callee"].get("path", "")).endswith(("random_bool", "gen_bool")):
+                        pv = b.value(t["args"][1]) if len(t["args"]) > 1 else ("unknown",)
+                        alts = _alternatives(b, pv, FB)
+                        at = set().union(*[_weight_atoms(a_, self_base, other_base) for a_ in alts])
+                        pv = next((a_ for a_ in alts if any(n_[0] == "call" and str(n_[1]).endswith("exp") for n_ in vt_walk(a_))), pv)
+                        # the switch on the result is the gate
+                        for y in FB:
+                            t2 = b.blocks[y]["term"]
+                            if t2["k"] == "switch" and t2["discr"]["k"] in ("copy", "move") and K.root_local(b, t2["discr"]) == t["dest"]["l"]:
+                                gates.add(y)
+                        gates.add(x)
+                        if not val:
+                            if "own" in at:
+                                bad.append("random_bool(%s): the acceptance probability of a sub-tree is computed against the old half's weight alone" % vt_str(pv)[:120])
+                            elif at >= {"other", "merged"} and any(n_[0] == "call" and str(n_[1]).endswith("exp") for n_ in vt_walk(pv)):
+                                rand_ok = True
+                        else:
+                            if "other" in at and (("own" in at) or ("merged" in at)):
+                                rand_ok = True
+                    if t["k"] == "switch":
+                        dv = b.value(t["discr"])
+                        if dv[0] == "bin" and dv[1] in ("Ge", "Gt", "Le", "Lt"):
+                            at = _weight_atoms(dv, self_base, other_base)
+                            if "other" in at:
+                                if not val and "own" in at:
+                                    bad.append("`%s`: in a sub-tree the new half's weight is compared with the old half's weight alone" % vt_str(dv)[:120])
+                                elif ("merged" in at) or (val and "own" in at):
+                                    gates.add(x)
+            if bad:
+                R.bad("C01-R11", key, site, "; ".join(sorted(set(bad))) + " (biased progressive sampling is valid only for the tree containing the initial point)")
+                continue
+            if not rand_ok:
+                R.bad("C01-R11", key, site, "no random_bool(exp(other.log_size - %s)) on the way to the draw assignment" % ("logaddexp(own, other)" if not val else "reference weight"))
+                continue
+            free = A in b.reach_from(0, avoid=sorted(gates), succ_filter=lambda a_, c_: c_ in FB) if 0 not in gates else False
+            if free:
+                R.bad("C01-R11", key, site, "the new draw can be adopted on a path that passes neither the random gate nor a comparison of the weights")
+            else:
+                R.ok("C01-R11", key, site, "%s case: %d feasible blocks, %d gate blocks; every path to the draw assignment passes a weight comparison or the random gate" % (case, len(FB), len(gates)))
+    if n == 0:
+        R.missing("C01-R11", "assignment `self.draw = other.draw` in the merge")
+    R.floor("C01-R11", 2)
+
+
 def run(F, R, config="all"):
     r8(F, R)
     r1(F, R)
@@ -683,6 +876,8 @@ def run(F, R, config="all"):
     r4(F, R)
     r6(F, R)
     r7(F, R)
+    r11(F, R)
+    r12(F, R)
     from . import c03
     c03.snapshot(F, R, "C01-R9")
     # the refreshed momentum has the distribution the kinetic energy assumes: N(0, I) for Euclidean and ExactNormal, the unit sphere only for Microcanonical
